@@ -27,6 +27,10 @@ impl<U: View, V: View> Prune for Modulo<U, V> {
         
         // If y contains zero or values too close to zero, we can't safely compute modulo
         if Val::range_contains_unsafe_divisor(y_min, y_max) {
+            // A divisor fixed to zero can never satisfy x % y == s
+            if y_min == y_max && y_min == Val::ValI(0) {
+                return None;
+            }
             // We can still try to propagate some constraints if parts of the domain are safe
             return Some(());
         }
@@ -45,28 +49,19 @@ impl<U: View, V: View> Prune for Modulo<U, V> {
         if y_min == y_max {
             if let Val::ValI(y_val) = y_min {
                 if y_val != 0 {
-                    // For modulo: s is in range [0, |y|-1] when y > 0
-                    // or [-(|y|-1), 0] when y < 0
-                    if y_val > 0 {
-                        let s_theoretical_min = Val::ValI(0);
-                        let s_theoretical_max = Val::ValI(y_val - 1);
-                        
-                        let new_s_min = if s_theoretical_min > s_min { s_theoretical_min } else { s_min };
-                        let new_s_max = if s_theoretical_max < s_max { s_theoretical_max } else { s_max };
-                        
-                        self.s.try_set_min(new_s_min, ctx)?;
-                        self.s.try_set_max(new_s_max, ctx)?;
-                    } else {
-                        // y_val < 0
-                        let s_theoretical_min = Val::ValI(y_val + 1);
-                        let s_theoretical_max = Val::ValI(0);
-                        
-                        let new_s_min = if s_theoretical_min > s_min { s_theoretical_min } else { s_min };
-                        let new_s_max = if s_theoretical_max < s_max { s_theoretical_max } else { s_max };
-                        
-                        self.s.try_set_min(new_s_min, ctx)?;
-                        self.s.try_set_max(new_s_max, ctx)?;
-                    }
+                    // Rust's `%` takes the sign of the dividend and |s| <= |y| - 1:
+                    // s is in [0, |y|-1] when x >= 0, in [-(|y|-1), 0] when x <= 0,
+                    // and in [-(|y|-1), |y|-1] when x can take both signs
+                    let zero = Val::ValI(0);
+                    let magnitude = y_val.abs() - 1;
+                    let s_theoretical_min = if x_min >= zero { zero } else { Val::ValI(-magnitude) };
+                    let s_theoretical_max = if x_max <= zero { zero } else { Val::ValI(magnitude) };
+
+                    let new_s_min = if s_theoretical_min > s_min { s_theoretical_min } else { s_min };
+                    let new_s_max = if s_theoretical_max < s_max { s_theoretical_max } else { s_max };
+
+                    self.s.try_set_min(new_s_min, ctx)?;
+                    self.s.try_set_max(new_s_max, ctx)?;
                 }
             }
         }
@@ -94,8 +89,25 @@ impl<U: View, V: View> Prune for Modulo<U, V> {
                 }
             }
         } else if let (Val::ValI(y_min_int), Val::ValI(y_max_int)) = (y_min, y_max) {
-            // y is variable: check if divisor range is small enough to enumerate
-            if y_max_int - y_min_int <= 10 {
+            // y is variable: check if both ranges are small enough to enumerate
+            let wide_int_dividend = match (x_min, x_max) {
+                (Val::ValI(x_min_int), Val::ValI(x_max_int))
+                    if y_max_int - y_min_int > 10 || x_max_int - x_min_int > 10 =>
+                {
+                    Some((x_min_int, x_max_int))
+                }
+                _ => None,
+            };
+            if let Some((x_min_int, x_max_int)) = wide_int_dividend {
+                // Wide integer ranges: remainders at the range boundaries do not bound the
+                // remainders inside (0..20 % 3..4 reaches 3), so use the enclosure that always
+                // holds: s has the sign of x, |s| <= |x| and |s| <= max|y| - 1
+                let magnitude = y_min_int.abs().max(y_max_int.abs()) - 1;
+                let lowest = if x_min_int >= 0 { 0 } else { x_min_int.max(-magnitude) };
+                let highest = if x_max_int <= 0 { 0 } else { x_max_int.min(magnitude) };
+                s_candidates.push(Val::ValI(lowest));
+                s_candidates.push(Val::ValI(highest));
+            } else if y_max_int - y_min_int <= 10 {
                 // Small divisor range: enumerate all divisor values
                 // For x, use boundary values only (unless x is also small)
                 let x_samples = if let (Val::ValI(x_min_int), Val::ValI(x_max_int)) = (x_min, x_max) {
@@ -202,7 +214,13 @@ impl<U: View, V: View> Prune for Modulo<U, V> {
                         let k_max_theoretical = (x_curr_max - s_val) / y_val;
                         
                         // Try a range around these theoretical k values
-                        for k in (k_min_theoretical - 1)..=(k_max_theoretical + 1) {
+                        // (for a negative divisor the two ends come out in decreasing order)
+                        let (k_low, k_high) = if k_min_theoretical <= k_max_theoretical {
+                            (k_min_theoretical, k_max_theoretical)
+                        } else {
+                            (k_max_theoretical, k_min_theoretical)
+                        };
+                        for k in (k_low - 1)..=(k_high + 1) {
                             let candidate_x = k * y_val + s_val;
                             if candidate_x >= x_curr_min && candidate_x <= x_curr_max {
                                 valid_x_values.push(Val::ValI(candidate_x));
